@@ -840,13 +840,15 @@ func (w *c14World) atCall(c *c14Call) {
 			h = w.cur.H
 		}
 		inf := &abci.ResponseInfo{AppVersion: w.truth.AppVersion(h), LastBlockHeight: int64(h), LastBlockAppHash: w.truth.AppHash(h)}
-		switch w.pick("v", 4) {
+		switch w.pick("v", 5) {
 		case 1:
 			inf.LastBlockAppHash = []byte("some-other-app-hash")
 		case 2:
 			inf.LastBlockHeight--
 		case 3:
 			inf.AppVersion++
+		case 4:
+			inf.LastBlockHeight++
 		}
 		w.log(c14Ev{K: "info-v", InfoHash: string(inf.LastBlockAppHash), InfoH: inf.LastBlockHeight, InfoV: inf.AppVersion})
 		c.reply <- c14Reply{info: inf}
